@@ -126,7 +126,9 @@ DEFAULT_SET = {"w1": "default", "w2": "default", "l2p_over": False, "p2p_over": 
                "verbose": False, "defcmd": False,
                # "slow": the source of the flow is slower than the converters (a pause after
                # every value), so that conversions finish while the flow is still being read
-               "slow": False}
+               "slow": False,
+               # "hold": the converters keep working until the source of the flow is exhausted
+               "hold": False}
 
 
 def _paused(flow):
@@ -134,6 +136,24 @@ def _paused(flow):
     for v in flow:
         yield v
         time.sleep(0.05)
+
+
+def _held(flow, logpath):
+    """The converters launched for this flow keep working until the source is exhausted (they
+    wait for the file LOG.go, see _out_stubs): every conversion is outstanding when the flow
+    ends, whatever the machine's speed."""
+    for name in (logpath + ".go",):
+        if os.path.exists(name):
+            os.remove(name)
+    with open(logpath + ".hold", "w"):
+        pass
+    try:
+        for v in flow:
+            yield v
+    finally:
+        with open(logpath + ".go", "w"):
+            pass
+        os.remove(logpath + ".hold")
 
 
 def settings(**kw):
@@ -277,6 +297,14 @@ def cases(tier, seed):
         yield {"k": "hist", "pipe": "single", "n": npl, "set": DEFAULT_SET, "prefix": [],
                "fan": [{"data": [int(rng.random() < 0.4) for _ in range(npl)], "tmpl": 0,
                         "del": []}]}
+        # ... and with converters that are all still working when the flow ends
+        yield {"k": "hist", "pipe": "single", "n": npl, "set": settings(hold=True), "prefix": [],
+               "fan": [{"data": [int(rng.random() < 0.4) for _ in range(npl)], "tmpl": 0,
+                        "del": []}]}
+    for npl in (2, 3):
+        yield {"k": "hist", "pipe": "single", "n": npl, "set": settings(hold=True), "prefix": [],
+               "fan": [{"data": [1] * npl, "tmpl": 0, "del": []},
+                       {"data": [0] * npl, "tmpl": 1, "del": ["pdf0"]}]}
     # (d2) the same with a source slower than the converters (conversions of earlier values
     # have finished when later values arrive), emphasis on deleted pdf files
     nsample = 120 if thorough else 10
@@ -641,6 +669,8 @@ class World(object):
         self.stdout = io.StringIO()
         try:
             with contextlib.redirect_stdout(self.stdout):
+                if self.set.get("hold"):
+                    flow = _held(flow, self.stubs.logpath)
                 results = list(self.seq.run(_paused(flow) if self.set.get("slow")
                                             else flow))
         except Exception as e:  # pylint: disable=broad-except
